@@ -25,8 +25,8 @@ import (
 func c13Historical(c *Ctx) {
 	K := "opchild/keeper.Keeper"
 	c.Rule("C13.R9", func() {
-		c.writersTable("C13.R9", K, "HistoricalInfos", setOf("Set"), []string{"(opchild/keeper.Keeper).SetHistoricalInfo"})
-		c.writersTable("C13.R9", K, "HistoricalInfos", setOf("Remove", "Clear"), []string{"(opchild/keeper.Keeper).DeleteHistoricalInfo"})
+		c.writersTable("C13.R9", K, "HistoricalInfos", setOf("Set"), []string{"(opchild/keeper.Keeper).TrackHistoricalInfo"})
+		c.writersTable("C13.R9", K, "HistoricalInfos", setOf("Remove", "Clear"), []string{"(opchild/keeper.Keeper).TrackHistoricalInfo"})
 		callersTable(c, "C13.R9", c.Method(childKeeper, "Keeper", "SetHistoricalInfo"), []string{"(opchild/keeper.Keeper).TrackHistoricalInfo"})
 		callersTable(c, "C13.R9", c.Method(childKeeper, "Keeper", "DeleteHistoricalInfo"), []string{"(opchild/keeper.Keeper).TrackHistoricalInfo"})
 		callersTable(c, "C13.R9", c.Method(childKeeper, "Keeper", "TrackHistoricalInfo"), []string{"opchild.BeginBlocker"})
